@@ -16,6 +16,7 @@ peer has closed.
 """
 import errno
 import selectors
+import socket
 import threading
 import time
 import traceback
@@ -29,7 +30,16 @@ SETTLE = 20.0
 
 
 class PeerSock(srvkit.FakeSock):
+    """in-memory server-side socket that behaves like a kernel socket where the daemon's except / finally / log paths
+    can tell the difference:
+      * once the peer is `gone`, send() fails with EPIPE;
+      * once the peer has RESET the connection, getpeername() fails with ENOTCONN (a TCP socket in state CLOSE),
+        also while bytes that arrived before the reset can still be read;
+      * a silent peer ("timeout" ending) makes recv() raise socket.timeout only if a timeout was SET on this socket;
+        without one a real recv() would block for ever: recorded in `blocked` (who was blocked, by thread name) -
+        and then the run goes on as if the peer had gone away, since the harness cannot wait for ever."""
     gone = False
+    rig = None
 
     def send(self, data):
         if self.gone and not self.closed:
@@ -38,6 +48,19 @@ class PeerSock(srvkit.FakeSock):
 
     def sendall(self, data):
         self.send(data)
+
+    def getpeername(self):
+        if self.ending == "reset":
+            raise OSError(errno.ENOTCONN, "Transport endpoint is not connected")
+        return super().getpeername()
+
+    def recv(self, n, flags=0):
+        try:
+            return super().recv(n, flags)
+        except socket.timeout:
+            if self.timeout is None and self.rig is not None:
+                self.rig.blocked.append((self.index, threading.current_thread().name))
+            raise
 
 
 class AcceptSelector:
@@ -118,6 +141,8 @@ class LoopRig(srvkit.Rig):
         config.MAX_MESSAGE_SIZE = 1 << 20
         self.loop_alive = True
         self.unsettled = False
+        self.blocked = []                         # (connection, thread) whose recv() had no timeout while the peer stalled
+        self.main_thread = threading.current_thread().name
         self.loop_exc = None                      # (class name, innermost transport function, text)
         self.iterations = 0
         srv = self.daemon.transportServer
@@ -152,6 +177,7 @@ class LoopRig(srvkit.Rig):
     def sock(self, idx):
         while len(self.socks) <= idx:
             self.socks.append(PeerSock(len(self.socks)))
+            self.socks[-1].rig = self
         return self.socks[idx]
 
     def pool_full(self):
